@@ -43,7 +43,11 @@ Inductive case :=
 | CHist (n : name) (v : version) (reqs : list name) (cmds : list jcmd)
         (before after : ores) (own1 own2 : owner_obs) (api2 : option api_obs)
 (* a document loaded (r1), written, loaded and written again (r2) *)
-| CDoc (must_load : bool) (doc : jext) (r1 r2 : ores) (own1 : owner_obs).
+| CDoc (must_load : bool) (doc : jext) (r1 r2 : ores) (own1 : owner_obs)
+(* several extensions (distinct names) and definition objects added to them, possibly the same object to
+   several extensions; per extension: document, document after a round trip, owners *)
+| CShared (hdrs : list (name * version * list name)) (objs : list jcmd) (prog : list (nat * nat))
+          (obs : list (ores * ores * owner_obs)).
 
 (* ---- model side ---- *)
 Definition m_to_serial : extension json json json -> res jext := to_serial jid jid.
@@ -58,6 +62,12 @@ Definition api_eqb (a b : api_obs) : bool :=
   N.eqb (fst (fst a)) (fst (fst b)) && version_eqb (snd (fst a)) (snd (fst b)) &&
   list_eqb N.eqb (snd a) (snd b).
 
+Definition obj_of_cmd (c : jcmd) : obj json json json :=
+  match c with AddType t => OType t | AddOp d => OOp d | AddValue v => OValue v end.
+Definition m_world (hdrs : list (name * version * list name)) (objs : list jcmd) (prog : list (nat * nat)) :=
+  share_run {| w_exts := map (fun h => new_ext (fst (fst h)) (snd (fst h)) (snd h)) hdrs;
+               w_objs := map obj_of_cmd objs |} prog.
+
 Definition corr (c : case) : bool :=
   match c with
   | CHist n v reqs cmds before after own1 own2 api2 =>
@@ -68,6 +78,14 @@ Definition corr (c : case) : bool :=
       | Ok e2 => oo_eqb own2 (m_owners e2) && option_eqb api_eqb api2 (Some (m_api e2))
       | Err _ => match api2 with None => true | Some _ => false end
       end
+  | CShared hdrs objs prog obs =>
+      let w := m_world hdrs objs prog in
+      Nat.eqb (length obs) (length (w_exts w)) &&
+      forallb (fun oe : (ores * ores * owner_obs) * extension json json json =>
+                 let s := m_to_serial (snd oe) in
+                 ores_eqb (fst (fst (fst oe))) s && ores_eqb (snd (fst (fst oe))) (bind s m_reload) &&
+                 oo_eqb (snd (fst oe)) (m_owners (snd oe)))
+              (combine obs (w_exts w))
   | CDoc _ doc r1 r2 own1 =>
       ores_eqb r1 (m_reload doc) && ores_eqb r2 (bind (m_reload doc) m_reload) &&
       match m_deserialize doc with
@@ -83,7 +101,7 @@ Definition owners_ok (n : name) (o : owner_obs) : bool :=
 Definition ores_same (a b : ores) : bool :=
   match a, b with OOk x, OOk y => jext_eqb x y | _, _ => false end.
 Definition ores_owner (a : ores) : bool :=
-  match a with OOk x => s_names_owner_b x | _ => false end.
+  match a with OOk x => s_names_owner_b x && s_defs_owner_b x | _ => false end.
 
 (* what loading a foreign document must keep (written without the model): everything, except that
    owner fields become the extension's name, the owner joins each signature's requirement set, an
@@ -138,6 +156,14 @@ Definition mon (c : case) : bool :=
       match before with OOk s => N.eqb (se_name s) n && version_eqb (se_version s) v &&
                                  seteq_b N.eqb (se_reqs s) reqs
                    | _ => false end
+  | CShared hdrs objs prog obs =>
+      Nat.eqb (length obs) (length hdrs) &&
+      forallb (fun oh : (ores * ores * owner_obs) * (name * version * list name) =>
+                 let '(before, after, own) := fst oh in
+                 let n := fst (fst (snd oh)) in
+                 ores_same before after && ores_owner before && owners_ok n own &&
+                 match before with OOk s => N.eqb (se_name s) n | _ => false end)
+              (combine obs hdrs)
   | CDoc must_load doc r1 r2 own1 =>
       match r1 with
       | OOk s => doc_loadable doc && doc_kept doc s && s_names_owner_b s && ores_same r1 r2 &&
